@@ -1566,3 +1566,55 @@ STREAMS.update({
     "timing": net_stream("timing", "timing", "query_timeout 300 ms / none, lifetime 1050 ms: silence, answer after 1-3 timeouts, junk every 25 ms across whole attempts (then answer or silence), TCP stall after 0/1/5 bytes, TCP drip at 15/60 ms per byte x 4 clients; transmissions must come at multiples of the timeout (+-130 ms), identical, and the call must end by lifetime+250 ms; timing-only mismatches are retried twice.", 64, 720),
     "history": net_stream("history", "history", "2-6 queries on one client object: raw and typed (A/AAAA/TXT), answered, timed out, refused for a bad name, truncated with oversized/short TCP answers, a malformed datagram followed by a large answer, async queries dropped mid-flight, with late responses to earlier queries delivered during later ones; each query must behave as on a fresh client. 4 clients.", 64, 800),
 })
+
+
+# ------------------------------------------------------------------------------- send_assert (C19)
+class SendAssert(Stream):
+    """static Send/Sync assertions compiled against the current tree"""
+    name = "sendassert"
+    rule = ("69 generated programs (functions of send_assert/src/lib.rs), each moving a client value or a pending query to another "
+            "thread under a `T: Send (+ Sync) (+ 'static)` bound: the four client types and ClientConfig Send+Sync; for tokio, "
+            "async-std and smol the futures of Client::new, query_raw (borrowed and 'static arguments), query_rrset::<D> for all 17 "
+            "record-data types, and a task body owning the client; the blocking client moved and shared. `cargo check` against /repo "
+            "with the four net features must accept every one. Non-trivial: the program mentions a future. Distinct: by function.")
+
+    def generate(self, rng, tier, pid):
+        src = open(os.path.join(C.VERIF, "send_assert", "src", "lib.rs")).read()
+        self.fns = re.findall(r"^fn (\w+)", src, re.M)
+        return ["sa%d check %s" % (i, f) for i, f in enumerate(self.fns) if not f.startswith("is_")]
+
+    def run(self, cases, pid, tier):
+        import shutil
+        d = os.path.join(C.VERIF, "send_assert")
+        try:
+            shutil.copy(os.path.join(C.REPO, "Cargo.lock"), os.path.join(d, "Cargo.lock"))
+        except OSError:
+            pass
+        rc, out = C.run(["cargo", "check", "--offline", "-j%d" % C.NCPU, "--message-format=short"], cwd=d, timeout=900,
+                        env={"CARGO_TARGET_DIR": os.path.join(C.BUILD, "send-assert-target")})
+        fails = []
+        if rc != 0:
+            # which programs were rejected: map error lines to the enclosing function
+            src = open(os.path.join(d, "src", "lib.rs")).read().splitlines()
+            bad = {}
+            for m in re.finditer(r"src/lib\.rs:(\d+):\d+: error(?:\[(E\d+)\])?: ([^\n]*)", out):
+                ln = int(m.group(1))
+                fn = "?"
+                for k in range(ln - 1, -1, -1):
+                    mm = re.match(r"fn (\w+)", src[k]) if k < len(src) else None
+                    if mm:
+                        fn = mm.group(1)
+                        break
+                bad.setdefault(fn, m.group(3))
+            if not bad:
+                bad["(crate does not build)"] = out[-400:]
+            for fn, msg in bad.items():
+                fails.append({"stream": self.name, "case": "check %s" % fn, "observed": "rustc: " + msg[:300],
+                              "expected": "accepted by rustc", "why": "program `%s` is rejected by rustc: %s" % (fn, msg[:200])})
+        nontriv = len([c for c in cases if "query" in c or "constructor" in c or "task" in c])
+        return {"evaluations": len(cases), "distinct_nontrivial": nontriv, "rule": self.rule,
+                "samples": [{"program": c.split(" ", 2)[2]} for c in cases[:4]], "histogram": {"accepted": len(cases) - len(fails), "rejected": len(fails)},
+                "disagreements": [], "failures": fails, "model_impl_agree": len(cases)}
+
+
+STREAMS.update({"sendassert": SendAssert()})
